@@ -166,7 +166,8 @@ AtomProps(atom, m) ==
      [] atom = "led.paid" -> {"C02", "C05"}
      [] atom = "led.radj" -> {"C10"}
      [] atom = "now" -> {}
-     [] atom = "t.own" -> {"C12"}
+     \* (who administers the treasury decides who may spend and reconfigure it: C13 when set by the instantiation)
+     [] atom = "t.own" -> {"C12"} \cup R(m = "t_instantiate", "C13")
      [] atom \in {"t.cfg", "msg.swap", "msg.t_spend"} -> {"C13"}
      [] atom = "msg.tf_mint" -> {"C03", "C04", "C19"}
      [] atom = "msg.tf_burn" -> {"C03", "C19"}
@@ -196,7 +197,8 @@ ReasonProps(reason, m) ==
     [] reason \in {"no_lst", "fee_exceeds_reward"} -> {"C11"}
     \* (C06: a batch becomes Received only through a payment by the authenticated staker)
     [] reason = "unauthorized_hook" -> {"C08", "C09"} \cup R(m = "receive_unstaked_tokens", "C06")
-    [] reason = "no_funds" -> IF m = "receive_rewards" THEN {"C11"} ELSE {"C06"}
+    \* (a batch booked as Received without a staked-asset payment pays its requesters out of other people's money: C05)
+    [] reason = "no_funds" -> IF m = "receive_rewards" THEN {"C11"} ELSE {"C06", "C05"}
     [] reason \in {"not_trader", "route_not_allowed", "denom_mismatch", "bad_local_receiver", "bad_ibc_receiver"} -> {"C13"}
     [] reason = "unauthorized" /\ m \in {"t_spend", "t_update_config"} -> {"C13"}
     [] reason = "unauthorized" /\ m \in {"t_transfer_ownership", "t_revoke_ownership_transfer"} -> {"C12"}
@@ -205,8 +207,10 @@ ReasonProps(reason, m) ==
                                   \cup R(m \in {"transfer_ownership", "revoke_ownership_transfer"}, "C12")
                                   \cup R(m = "recover", "C07")
     [] reason \in {"insufficient_fees", "no_treasury"} -> {"C11", "C02"}
-    [] reason \in {"bad_receiver", "unknown_packet", "wrong_receiver", "nothing_to_recover", "mixed_denoms",
-                   "ibc_submit_failed"} -> {"C07"}
+    \* (a recovery the model refuses re-sends value that was not refundable to that receiver: besides C07 it forwards
+    \*  staked asset / LST to somebody it does not belong to - C01, C03)
+    [] reason \in {"unknown_packet", "wrong_receiver", "nothing_to_recover", "mixed_denoms"} -> {"C07", "C01", "C03"}
+    [] reason \in {"bad_receiver", "ibc_submit_failed"} -> {"C07"}
     [] reason \in {"duplicate", "not_found", "invalid_config"} -> {"C14"}
     [] reason = "invalid_address" -> IF m = "transfer_ownership" THEN {} ELSE {"C14"}
     [] reason \in {"too_early", "not_nominee"} -> {"C12", "C08"}
@@ -220,6 +224,9 @@ SuccessProps(w, call) ==
      [] m = "fee_withdraw" -> {"C02", "C11"}
      [] m = "recover" -> {"C02", "C07"}
      [] m = "submit_batch" -> {"C06"}
+     \* (a payment at or above the minimum that mints a non-zero amount is accepted: C04; to the chosen recipient: C03)
+     [] m = "liquid_stake" -> {"C04", "C03"}
+     [] m = "liquid_unstake" -> {"C05"}
      [] m = "receive_unstaked_tokens" -> {"C06", "C09"}
      [] m = "receive_rewards" -> {"C09", "C11"}
      [] m \in {"circuit_breaker", "resume_contract"} -> {"C10"}
@@ -264,7 +271,9 @@ Findings(l) ==
       r == Exec(pre, call)
       m == Inner(call)
       fam == IF e.build = "miniwasm" THEN "/miniwasm.tokenfactory.v1." ELSE "/osmosis.tokenfactory.v1beta1."
-      panic == {[l |-> l, kind |-> "panic", m |-> m, atom |-> "panic", props |-> {"C16"}] : x \in R(e.res.panic, 1)}
+      \* (a rate-changing operation that panics posts no rates: C15 as well)
+      panic == {[l |-> l, kind |-> "panic", m |-> m, atom |-> "panic",
+                 props |-> {"C16"} \cup R(m \in {"liquid_stake", "submit_batch", "receive_rewards", "resume_contract"}, "C15")] : x \in R(e.res.panic, 1)}
       cmp ==
         IF r.ok /\ e.res.ok
         THEN {[l |-> l, kind |-> "diff", m |-> m, atom |-> a,
@@ -283,12 +292,16 @@ Findings(l) ==
       \* C15: the State query reports the purchase rate LST / staked of the stored totals
       qrate == {[l |-> l, kind |-> "inv", m |-> m, atom |-> "State.rate", props |-> {"C15"}] :
                   x \in R(~e.post.c.stateErr /\ (o.c.L = 0 \/ o.c.N > 0) /\ e.post.c.rate # Rates(o.c.N, o.c.L)[2], 1)}
+      \* ... and the State query answers at all whenever the rate is defined (no LST, or LST backed by a positive total)
+      qerr == {[l |-> l, kind |-> "inv", m |-> m, atom |-> "State.query_failed", props |-> {"C15", "C16"}] :
+                  x \in R(e.post.c.stateErr /\ (o.c.L = 0 \/ o.c.N > 0), 1)}
+      tq == {[l |-> l, kind |-> "panic", m |-> m, atom |-> "treasury Config query panics", props |-> {"C16"}] : x \in R(e.post.t.qpanic, 1)}
       act == {[l |-> l, kind |-> "act", m |-> m, atom |-> "Act_C06", props |-> {"C06"}] : x \in R(~Act_C06(pre, o), 1)}
              \cup {[l |-> l, kind |-> "act", m |-> m, atom |-> "Act_C04", props |-> {"C04"}] :
                      x \in R(e.res.ok /\ ~Act_C04(pre, o, [m |-> m]), 1)}
              \cup {[l |-> l, kind |-> "act", m |-> m, atom |-> "Act_C11", props |-> {"C11"}] :
                      x \in R(e.res.ok /\ m = "receive_rewards" /\ ~Act_C11(pre, o, e.res.msgs), 1)}
-  IN panic \cup cmp \cup inv \cup qrate \cup act
+  IN panic \cup cmp \cup inv \cup qrate \cup qerr \cup tq \cup act
 
 \* ------------------------------------------------------------------ the trace as a behaviour
 VARIABLES l, nfind
